@@ -87,11 +87,21 @@ type zzC18Obs struct {
 	clientBlocked bool
 	foreign       bool
 	now           time.Time
+
+	// panicked is the panic value if setting up or checking the request
+	// panicked (the DNS path does not recover: the process would be gone).
+	panicked string
 }
 
 // zzC18At runs one request's filtering set-up at virtual time t.
 func zzC18At(d *DNSFilter, t time.Time, client bool, useClient *bool) (o zzC18Obs) {
 	synctest.Run(func() {
+		defer func() {
+			if r := recover(); r != nil {
+				o.panicked = fmt.Sprint(r)
+			}
+		}()
+
 		time.Sleep(time.Until(t))
 		o.now = time.Now()
 		*useClient = client
@@ -272,7 +282,7 @@ func TestZZVerifC18Apply(t *testing.T) {
 // zzC18Judge compares one observation with the spec's verdict want (= the
 // pause schedule is in effect).  got is the observed value of "in effect".
 func zzC18Judge(o zzC18Obs, client, want bool) (ok bool, what string, got bool) {
-	if o.foreign {
+	if o.foreign || o.panicked != "" {
 		return false, "apply-error", !want
 	}
 
